@@ -7,14 +7,17 @@ RULE = ("every labelled DAG(n), n<=4 quick / n<=5 thorough, each under the given
         "a repeat stream (every DAG(n) n<=4 + random: dag_to_cpdag called on a first graph, 1-2 edges added and/or one removed on "
         "the SAME DiGraph object, second result compared with the model of the final DAG) and an attrs stream (edges/nodes carry "
         "pre-existing 'order'/'label' attributes with arbitrary values incl. the EDGELABELS members); "
+        "a retmut stream (the returned CPDAG is edited in place — orient / remove edge / remove node — and an equal fresh DAG is "
+        "converted again) and a label-family stream (str/tuple/bigint/frozenset/int257: equal but not identical label objects); "
         "the model is run at networkx's actual topological order of the very DiGraph handed to the code; brute-force "
-        "oracle (all orientations of the skeleton) when |E|<=12. distinct by canonical DAG; non-trivial = the CPDAG has "
+        "oracle (all orientations of the skeleton) when |E|<=12 (random cases of the quick tier: |E|<=9). distinct by canonical DAG; non-trivial = the CPDAG has "
         "both a directed and an undirected edge, or an isolated node")
 EXHAUSTIVE = {"quick": "all labelled DAGs on n<=4 nodes (543+25+3+1) x 3 insertion orders",
               "thorough": "all labelled DAGs on n<=5 nodes (29281+...) x 3 insertion orders"}
 TRUSTED = ["networkx DiGraph / topological_sort / predecessors / in_edges taken at face value",
            "closed form of order_edges' numbering (targets from last to first in the topological order, sources ascending) "
            "read off the loop by hand"]
+SPOT_N = 10   # the oracle over up to 4096 orientations is slow under vm_compute
 ASSUMPTIONS = ["input is a networkx.DiGraph that is acyclic", "int labels (label families: C15)"]
 TECHNIQUE = ("Coq proof (termination + structure unbounded; essential-graph clause by kernel computation over all DAGs n<=4 x all "
              "topological orders; oracle reflection and 'equal essential graphs iff Markov equivalent' unbounded) + extracted-model correspondence")
@@ -33,6 +36,9 @@ LEVEL_NOTE = ("Chickering's correctness proof (paper-length induction over the e
               "closed form (targets from last to first in the topological order, sources ascending), label_edges loop by loop with fuel. "
               "acyclic is stated as existence of a topological numbering. The implementation is tied to the model at networkx's actual "
               "topological order of the very DiGraph it receives.")
+
+
+LAB_FAMILIES = ["str", "tuple", "bigint", "frozenset", "int257"]
 
 
 def _maybe_orders(g, tag):
@@ -74,6 +80,12 @@ def repeat_variant(rng, g):
     """second-call case: final DAG g; some of its edges are added only after the first call, and possibly one extra
     edge (forward w.r.t. a topological order of g, so every intermediate graph is acyclic) exists at the first call only"""
     D = [list(e) for e in g["D"]]
+    if D and rng.random() < 0.5:
+        # neighbour with the same node and edge counts (one edge reversed or moved), morphed in place into g
+        g0 = gr.perturb(g, rng)
+        if g0 is not None and len(g0["D"]) == len(D):
+            d0 = [list(e) for e in g0["D"]]
+            return {"g": g, "drop": [e for e in D if e not in d0], "extra": [e for e in d0 if e not in D], "repeat": True}
     k = rng.randint(1, 2) if D else 0
     drop = rng.sample(D, min(k, len(D)))
     extra = []
@@ -101,6 +113,16 @@ def gen_cases(tier, rng):
             for rep in range(2 if n == 4 else 3):
                 yield dict(repeat_variant(rng, g), kind="repeat%d" % n)
             yield {"kind": "attrs%d" % n, "g": g, "attrs": rng.randint(0, 10 ** 6)}
+    # returned CPDAG edited in place, equal fresh DAG converted again; label families whose labels are equal but not
+    # identical objects (every lab(v) call builds a new object: node insertion vs. edge endpoints)
+    i = 0
+    for n in range(1, 5):
+        for g in gr.enum_dag(n):
+            i += 1
+            if n < 4 or i % 3 == 0:
+                yield {"kind": "retmut%d" % n, "g": g, "retmut": rng.randint(0, 10 ** 6)}
+            if n < 4 or i % 3 == 1:
+                yield {"kind": "lab%d" % n, "g": g, "_lab": LAB_FAMILIES[i % len(LAB_FAMILIES)]}
     nr = 400 if tier == "quick" else 4000
     for i in range(nr):
         n = rng.randint(5, 9 if tier == "quick" else 12)
@@ -115,8 +137,16 @@ def gen_cases(tier, rng):
         elif r < 0.4:
             c["attrs"] = rng.randint(0, 10 ** 6)
             c["kind"] = "randattrs"
+        elif r < 0.55:
+            c["retmut"] = rng.randint(0, 10 ** 6)
+            c["kind"] = "randretmut"
+        elif r < 0.7:
+            c["_lab"] = rng.choice(LAB_FAMILIES)
+            c["kind"] = "randlab"
         if rng.random() < 0.5:
             c["_order"] = rng.randint(3, 10 ** 6)
+        if tier == "quick":
+            c["orc"] = 9      # keeps the vm_compute spot check of the quick tier short (2^9 orientations at most)
         yield c
 
 
@@ -143,6 +173,28 @@ def decorate(Dg, seed):
         for name in ("order", "label"):
             if r.random() < 0.3:
                 Dg.nodes[n][name] = _attr_value(r)
+
+
+def mutate_returned(C, seed):
+    """in-place edits a caller may apply to a CPDAG it got back: orient an undirected edge, remove an edge, remove a node"""
+    import random as _r
+    r = _r.Random("retmut:%s" % seed)
+    und = list(C.undirected_edges)
+    dire = list(C.directed_edges)
+    done = 0
+    if und and r.random() < 0.7:
+        u, v = r.choice(und)
+        if r.random() < 0.5:
+            u, v = v, u
+        C.orient_uncertain_edge(u, v)
+        done += 1
+    if dire and r.random() < 0.6:
+        u, v = r.choice(dire)
+        C.remove_edge(u, v, C.directed_edge_name)
+        done += 1
+    nodes = list(C.nodes)
+    if nodes and (done == 0 or r.random() < 0.3):
+        C.remove_node(r.choice(nodes))
 
 
 def build(case, first_call=None):
@@ -174,7 +226,7 @@ def topo_order(case):
 
 
 def oracle_on(case):
-    return len(case["g"]["D"]) <= 12
+    return len(case["g"]["D"]) <= case.get("orc", 12)
 
 
 def encode(case):
@@ -189,6 +241,10 @@ def decode(case, v):
 def run_impl(case):
     from pywhy_graphs.algorithms import dag_to_cpdag
     Dg, lab, inv = build(case, first_call=dag_to_cpdag)
+    if case.get("retmut") is not None:
+        # the caller edits the RETURNED CPDAG in place, then converts an equal fresh DAG: the second result is judged
+        mutate_returned(dag_to_cpdag(Dg), case["retmut"])
+        Dg, lab, inv = build(case)
     C = dag_to_cpdag(Dg)
     return {"nodes": sorted(inv(v) for v in C.nodes),
             "directed": sorted([inv(a), inv(b)] for a, b in C.directed_edges),
@@ -222,7 +278,7 @@ def nontrivial(case, model):
 
 def key(case):
     return (gr.canon(case["g"]), tuple(map(tuple, case.get("drop", []))), tuple(map(tuple, case.get("extra", []))),
-            case.get("attrs"))
+            case.get("attrs"), case.get("retmut"), case.get("_lab"))
 
 
 def classify(case, impl, model):
